@@ -2114,7 +2114,7 @@ class tensor:
 
     def _set_linear(self, key, value):
         idx = key
-        if not isinstance(idx, slice) and (idx > np.prod(self.shape)).any():
+        if not isinstance(idx, slice) and (idx >= np.prod(self.shape)).any():
             assert (
                 False
             ), "TTB:BadIndex In assignment X[I] = Y, a tensor X cannot be resized"
